@@ -39,7 +39,8 @@ structure Cur (κ : Type) where
   t : Tree κ Int ranks.length
 
 inductive Style
-  | tf    -- `a & b` / `Fiber.intersection(..., style="two-finger")`
+  | tf    -- `(a & b) & c` / `Fiber.intersection(..., style="two-finger")`
+  | tfr   -- `a & (b & c)`: the right operand is itself a lazy intersection (also: hoisted `bc = b & c`)
   | lf    -- `Fiber.intersection(..., style="leader-follower")`
   | lff   -- leader-follower, then `if Payload.isEmpty(follower): continue`
   deriving DecidableEq, Repr
@@ -87,6 +88,13 @@ def interAll {π : Type} : List (Fib κ π) → Fib κ (List π)
   | [] => []
   | f :: fs => interAcc (f.map (fun e => (e.1, [e.2]))) fs
 
+/-- `a & (b & c)` (or `a & bc` with `bc = b & c` built outside the loop): the first operand against
+    the lazy intersection of the others -/
+def interR {π : Type} : List (Fib κ π) → Fib κ (List π)
+  | [] => []
+  | [f] => f.map (fun e => (e.1, [e.2]))
+  | f :: g :: gs => (andMerge f (interAll (g :: gs))).map (fun r => (r.1, r.2.1 :: r.2.2))
+
 /-- leader-follower: every presented element of the leader, the followers looked up by coordinate -/
 def lfRows : List (Cur κ) → Fib κ (List (Cur κ))
   | [] => []
@@ -96,6 +104,7 @@ def lfRows : List (Cur κ) → Fib κ (List (Cur κ))
 def coiter (style : Style) (parts : List (Cur κ)) : Fib κ (List (Cur κ)) :=
   match style with
   | .tf => interAll (parts.map Cur.elems)
+  | .tfr => interR (parts.map Cur.elems)
   | .lf => lfRows parts
   | .lff => (lfRows parts).filter (fun r => r.2.tail.all (fun c => !c.isEmpty))
 
